@@ -18,7 +18,7 @@ EXPLANATION = (
 
 
 def check(ctx, run):
-    run.rules_run = ['R09.1', 'R09.2', 'R09.3', 'R09.4', 'R09.5', 'R09.6', 'R09.7', 'R09.8', 'R09.9', 'R09.10', 'R09.11']
+    run.rules_run = ['R09.1', 'R09.2', 'R09.3', 'R09.4', 'R09.5', 'R09.6', 'R09.7', 'R09.8', 'R09.9', 'R09.10', 'R09.11', 'R09.12', 'R09.13', 'R09.14']
     parsers.r09_1(ctx, run)
     parsers.r09_2(ctx, run)
     parsers.r09_11(ctx, run)
@@ -35,6 +35,8 @@ def check(ctx, run):
                            'the parser', 'ill-formed input is silently repaired (U+FFFD substituted) instead of being rejected with an error',
                            only=lambda p_: p_.startswith(('util::', 'parser::', 'jsonpath::parser::', 'keypath::')))
     textparser.r02_3(ctx, run, rule='R09.6/R02.3')
+    textparser.r02_10(ctx, run, rule='R09.6/R02.10')
+    parsers.r_flag_forward(ctx, run, 'R09.14', ('jsonpath::parser::',), 9)
     import boundaries
     _bf = lambda p_: p_.startswith(('jsonpath::parser::', 'util::'))
     boundaries.check(ctx, run, 'R09.13', [p_ for p_ in sorted(boundaries.load_baseline() or {}) if _bf(p_)], 'the JSONPath scanner rejects input')
